@@ -173,7 +173,8 @@ fn sig(s: &syn::Signature) -> Value {
     json!({
         "name": s.ident.to_string(),
         "params": s.inputs.iter().map(|a| match a {
-            syn::FnArg::Receiver(r) => json!({"name":"self","ty": if r.reference.is_some() { "&Self" } else { "Self" }}),
+            syn::FnArg::Receiver(r) => json!({"name":"self","ty": if r.reference.is_some() { "&Self" } else { "Self" },
+                                             "mut_ref": r.reference.is_some() && r.mutability.is_some()}),
             syn::FnArg::Typed(t) => json!({"name": toks(&t.pat), "pat": pat(&t.pat), "ty": toks(&t.ty)}),
         }).collect::<Vec<_>>(),
         "ret": match &s.output { syn::ReturnType::Default => "()".to_string(), syn::ReturnType::Type(_, t) => toks(t) },
